@@ -20,7 +20,7 @@ COMPONENTS = ['thunkmachine']
 THEOREMS = ['C11_done_is_stable', 'C11_history_independent_if_restored', 'C11_history_independent_if_restored_eq',
             'C11_memo_transparent', 'C11_restored_nonvacuous',
             'C11_history_independent_unrestored_refuted', 'C11_assert_flag_unrestored_refuted',
-            'C11_memo_limit_refuted', 'C11_intern_lookup_sound', 'C11_nonvacuous']
+            'C11_memo_limit_refuted', 'C11_assert_order_example', 'C11_intern_lookup_sound', 'C11_nonvacuous']
 ALLOWED_AXIOMS = set()
 TRANSLATORS = []
 
@@ -85,7 +85,7 @@ def machine_wire(m):
     for c in m['cells']:
         st = ('d%x' % c['body'][1]) if c['body'][0] == 'c' else 'p' + expr_wire(c['body'])
         cs.append('%x:%s' % (c['owner'], st))
-    gs = ['%s:0' % ('-' if g['cond'] is None else '%x' % g['cond']) for g in m['guards']]
+    gs = ['%s:0' % '|'.join(','.join('-' if a is None else '%x' % a for a in l) for l in guard_layers(g)) for g in m['guards']]
     rq = []
     for r in m['reqs']:
         if r[0] == 'g':
@@ -95,27 +95,54 @@ def machine_wire(m):
     return [';'.join(cs), ';'.join(gs), ';'.join(rq)]
 
 
+def guard_layers(g):
+    """layers (base first) of assertion lists; None = `assert true`, m = `assert false : "g<m>"`.
+    (older corpus entries: one layer from cond / true_assert)"""
+    if 'layers' in g:
+        return g['layers']
+    if g.get('cond') is not None:
+        return [[g['cond']]]
+    return [[None]] if g.get('true_assert') else [[]]
+
+
 def machine_sources(m):
-    """guard g -> source g (an object whose hidden fields are the cells it owns);
-    root cell -> one source each, after the guards.  Returns (sources, root_source_index)"""
-    G = len(m['guards'])
+    """object g -> source g = `L0 + L1 + ...` (one object literal per layer, holding that layer's
+    assertions and, as hidden fields, the cells placed in it); root cell -> one source each, after
+    the objects.  Returns (sources, root_source_index)"""
     srcs = []
     for gi, g in enumerate(m['guards']):
-        parts = []
-        if g['cond'] is not None:
-            parts.append('assert false : "g%d"' % g['cond'])
-        elif g.get('true_assert'):
-            parts.append('assert true : "never"')
-        for ci, c in enumerate(m['cells']):
-            if c['owner'] == gi and not c.get('root'):
-                parts.append('c%d:: %s' % (ci, expr_jsonnet(c['body'], m['cells'])))
-        srcs.append('{ ' + ', '.join(parts) + ' }')
+        ls = guard_layers(g)
+        lits = []
+        for li, asserts in enumerate(ls):
+            parts = []
+            for a in asserts:
+                parts.append('assert true : "never"' if a is None else 'assert false : "g%d"' % a)
+            for ci, c in enumerate(m['cells']):
+                if c['owner'] == gi and not c.get('root') and c.get('layer', 0) % len(ls) == li:
+                    parts.append('c%d:: %s' % (ci, expr_jsonnet(c['body'], m['cells'])))
+            lits.append('{ ' + ', '.join(parts) + ' }')
+        srcs.append(' + '.join(lits))
     root_src = {}
     for ci, c in enumerate(m['cells']):
         if c.get('root'):
             root_src[ci] = len(srcs)
             srcs.append(expr_jsonnet(c['body'], m['cells']))
     return srcs, root_src
+
+
+def gen_guard(rng, may_fail):
+    """an inheritance chain of 1..3 layers with assertions in any subset of the layers"""
+    nl = rng.choice([1, 1, 2, 2, 3])
+    fail_layer = rng.randrange(nl) if (may_fail and rng.random() < 0.4) else None
+    ls = []
+    for li in range(nl):
+        asserts = [None] * rng.choice([0, 0, 1, 2])
+        if li == fail_layer:
+            asserts.insert(rng.randint(0, len(asserts)), rng.randint(1, 9))
+        elif may_fail and rng.random() < 0.08:
+            asserts.append(rng.randint(1, 9))
+        ls.append(asserts)
+    return {'layers': ls}
 
 
 def machine_requests(m, root_src):
@@ -168,14 +195,14 @@ def gen_long_chain(rng):
     cells finished deep in one request are met near the surface in the next ones"""
     n = rng.randint(30, 70)
     ng = rng.choice([1, 2])
-    guards = [{'cond': None, 'true_assert': rng.random() < 0.5} for _ in range(ng)]
+    guards = [gen_guard(rng, False) for _ in range(ng)]
     cells = []
     for i in range(n):
         if i == n - 1:
             body = ('f', rng.randint(1, 9)) if rng.random() < 0.3 else ('a', ('c', 1), ('c', rng.randint(0, 9)))
         else:
             body = ('r', i + 1) if rng.random() < 0.5 else ('a', ('r', i + 1), ('c', rng.randint(0, 3)))
-        cells.append({'owner': rng.randrange(ng), 'body': body})
+        cells.append({'owner': rng.randrange(ng), 'layer': rng.randrange(3), 'body': body})
     entries = [0] + sorted(rng.sample(range(1, n), 4))
     roots = []
     for t in entries:
@@ -193,10 +220,7 @@ def gen_machine(rng, size):
     if rng.random() < 0.1:
         return gen_long_chain(rng)
     ng = rng.choice([1, 1, 2, 3])
-    guards = []
-    for g in range(ng):
-        failing = g > 0 and rng.random() < 0.35
-        guards.append({'cond': rng.randint(1, 9) if failing else None, 'true_assert': rng.random() < 0.5})
+    guards = [gen_guard(rng, g > 0) for g in range(ng)]
     n = rng.randint(2, size)
     cells = []
     shape = rng.choice(['chain', 'dag', 'dag', 'cyclic'])
@@ -220,7 +244,7 @@ def gen_machine(rng, size):
         body = ex(2)
         if shape == 'chain' and i < n - 1 and rng.random() < 0.8:
             body = ('r', i + 1) if rng.random() < 0.6 else ('a', ('r', i + 1), ('c', rng.randint(0, 9)))
-        cells.append({'owner': rng.randrange(ng), 'body': body})
+        cells.append({'owner': rng.randrange(ng), 'layer': rng.randrange(3), 'body': body})
     # roots
     nr = rng.randint(1, min(5, n))
     roots = []
@@ -318,21 +342,108 @@ def gen_session(rng):
     return opts, srcs, reqs
 
 
+F_DEF = 'local f(k) = if k == 0 then 0 else 1 + f(k - 1); '
+
+
+def gen_object(rng):
+    """an inheritance chain `L0 + L1 + ...` (1..3 layers): fields x, n, y in any layers (later layers
+    override), assertions in any subset of the layers (only base, only derived, both, none), each
+    assertion: constant true / constant false / on a field another layer may override / on a
+    recursion whose depth is a field (succeeds, fails, or overflows, depending on the limit)"""
+    nl = rng.choice([1, 2, 2, 3, 3])
+    with_asserts = [rng.random() < 0.5 for _ in range(nl)]
+    if rng.random() < 0.35:       # assertions only in the base
+        with_asserts = [True] + [False] * (nl - 1)
+    lits = []
+    for li in range(nl):
+        parts = []
+        if with_asserts[li]:
+            for _ in range(rng.choice([1, 1, 2])):
+                k = rng.random()
+                if k < 0.15:
+                    parts.append('assert true')
+                elif k < 0.25:
+                    parts.append('assert false : "bad%d"' % li)
+                elif k < 0.6:
+                    parts.append('assert self.x > 0 : "neg%d"' % li)
+                elif k < 0.8:
+                    parts.append('assert f(self.n) >= 0 : "deep%d"' % li)
+                else:
+                    parts.append('assert f(self.n) < 0 : "deepfail%d"' % li)
+        for name in ('x', 'n', 'y'):
+            if li == 0 or rng.random() < 0.4:
+                if name == 'x':
+                    v = rng.choice(['1', '-1', '5', '-1', 'self.y'])
+                elif name == 'n':
+                    v = rng.choice(['3', '20', '60', '300', '100000'])
+                else:
+                    v = rng.choice(['2', '-2', 'self.n + 1', '[self.x, 1]'])
+                parts.append('%s: %s' % (name, v))
+        lits.append('{ ' + ', '.join(parts) + ' }')
+    return ' + '.join(lits)
+
+
+def gen_object_session(rng):
+    """an object with layered assertions kept alive by the program state — as a field of a shared
+    library object, inside another object, captured by function closures — read field by field by
+    later requests (eval, manifest, eval_call), before and after requests that fail on it"""
+    o = gen_object(rng)
+    form = rng.random()
+    if form < 0.6:
+        lib = F_DEF + 'local o = ' + o + '; { o:: o, get:: function(k) o[k], w:: { inner: o }, p:: o.x, q:: [o.y, o.n] }'
+        clients = ['L.o.x', 'L.o.y', 'L.o.n', 'L.o', 'L.get("x")', 'L.get("n")', 'L.w.inner.x', 'L.w', 'L.p', 'L.q',
+                   'std.objectFields(L.o)', 'std.objectHas(L.o, "x")', '(L.o + {x: 7}).x', 'L.o + {x: 7}', 'L.get']
+        srcs = [lib] + ['local L = import "s0"; ' + c for c in rng.sample(clients, rng.randint(3, 6))]
+        callable_ = [i for i, t in enumerate(srcs) if t.endswith('L.get')]
+    else:
+        lib = F_DEF + 'local o = ' + o + '; function(k="x") o[k]'
+        srcs = [lib, 'local g = import "s0"; g("y")', 'local g = import "s0"; [g("n"), g()]']
+        callable_ = [0]
+    argbase = len(srcs)
+    srcs += ['"x"', '"y"', '"n"']
+    reqs = []
+    for _ in range(rng.randint(3, 8)):
+        r = rng.random()
+        k = rng.randrange(0, argbase)
+        lim = rng.choice(['', '', '', '@%x' % rng.randint(2, 12), '@%x' % rng.randint(10, 80), '@%x' % rng.randint(60, 400)])
+        if r < 0.07:
+            reqs.append('G')
+        elif r < 0.14:
+            reqs.append('N%x' % k)
+        elif r < 0.5:
+            reqs.append('E%x%s' % (k, lim))
+        elif r < 0.7:
+            reqs.append('M%x:%d%s' % (k, rng.randint(0, 1), lim))
+        elif r < 0.76:
+            reqs.append('H%x:0%s' % (k, lim))
+        elif callable_:
+            fsrc = rng.choice(callable_)
+            reqs.append('C%x:%x:%s' % (fsrc, argbase + rng.randrange(3), lim))
+        else:
+            reqs.append('E%x%s' % (k, lim))
+    return rng.choice(['big=4e20', 'big=4e20', 'big=4e20', 'gc=5;big=4e20']), srcs, reqs
+
+
 def src_field(srcs):
     return ';'.join(hxl(list(s.encode())) for s in srcs)
 
 
-def classify_diff(req, shared, fresh, earlier_failed):
-    """key of a shared-vs-fresh difference (None = allowed by the property's boundary)"""
+def classify_diff(req, shared, fresh, earlier_failed, roomy='-'):
+    """key of a shared-vs-fresh difference (None = allowed by the property's boundary).
+    When the fresh evaluation overflows the stack, the reference is the fresh evaluation under a
+    large limit (`roomy`): a memoised sub-result may make the long-lived state cheaper
+    (C11_memo_limit_refuted), but the answer it gives must be the one a fresh state gives with room."""
     sv = shared.split(':')
     fv = fresh.split(':')
-    f_over = len(fv) > 2 and fv[2] == 'StackOverflow'
-    if f_over and sv[0] in ('V', 'S', 'ok'):
-        # memoised sub-results need fewer frames than a fresh evaluation: allowed (C11_memo_limit_refuted
-        # shows it is inherent to memoisation under a frame limit; the theorems exclude fresh overflows)
-        return None
-    if f_over and sv[0] == 'E':
-        return None   # an error met earlier than the overflow a fresh evaluation would hit (same reason)
+    if len(fv) > 2 and fv[2] == 'StackOverflow':
+        if roomy == shared:
+            return None
+        rv = roomy.split(':')
+        if len(rv) > 2 and rv[2] == 'StackOverflow':
+            if sv[0] == 'E':
+                return None   # an error met before the depth at which every fresh evaluation overflows
+            return 'answer-where-every-fresh-evaluation-overflows'
+        fv = rv
     if len(sv) > 2 and sv[2] == 'InfiniteRecursion' and earlier_failed:
         return KEY_INPROGRESS
     if len(fv) > 2 and fv[2] == 'AssertFailed' and earlier_failed and not (len(sv) > 2 and sv[2] == 'AssertFailed'):
@@ -346,31 +457,33 @@ def run_sessions(run, impl_exe, sessions, label):
     cases = []
     for i, (opts, srcs, reqs) in enumerate(sessions):
         cases.append(('%s%d' % (label, i), 'session', [opts, src_field(srcs), ';'.join(reqs)]))
-    res = vlib.run_sharded(impl_exe, [vlib.impl_line(c) for c in cases], timeout=300)
+    res = {}
+    for k in range(0, len(cases), 1600):   # the timeout is per driver process: keep each batch short
+        res.update(vlib.run_sharded(impl_exe, [vlib.impl_line(c) for c in cases[k:k + 1600]], timeout=600))
     for (cid, _, fields), (opts, srcs, reqs) in zip(cases, sessions):
         r = res.get(cid, 'NOOUTPUT')
         run.evaluations += 1
         replay = {'kind': 'session', 'opts': opts, 'sources': srcs, 'requests': reqs, 'impl': r}
         f = r.split('\t')
-        if len(f) != 2:
+        if len(f) != 3:
             run.violation('session-driver-' + f[0].lower(), 'session driver answered %s on sources %r requests %r' % (r[:80], srcs[:3], reqs), replay)
             continue
-        sh, fr = f[0].split(';'), f[1].split(';')
-        if len(sh) != len(reqs) or len(fr) != len(reqs):
+        sh, fr, ro = f[0].split(';'), f[1].split(';'), f[2].split(';')
+        if len(sh) != len(reqs) or len(fr) != len(reqs) or len(ro) != len(reqs):
             run.violation('session-driver-shape', 'outcome count mismatch', replay)
             continue
         failed = False
         classes = set()
-        for q, a, b in zip(reqs, sh, fr):
+        for q, a, b, c in zip(reqs, sh, fr, ro):
             run.count('req_' + q[0])
             run.count('out_' + (a.split(':')[2] if a.startswith('E:') else a.split(':')[0]))
             if a != b:
-                key = classify_diff(q, a, b, failed)
+                key = classify_diff(q, a, b, failed, c)
                 if key is None:
                     run.count('memo_shortens_stack')
                 else:
-                    run.violation(key, 'request %s answers %s on the long-lived Program but %s on a fresh one (sources %r, requests %r, opts %r)'
-                                  % (q, show(a), show(b), srcs, reqs, opts), replay)
+                    run.violation(key, 'request %s answers %s on the long-lived Program but %s on a fresh one%s (sources %r, requests %r, opts %r)'
+                                  % (q, show(a), show(b), '' if c == '-' else ' (%s with room)' % show(c), srcs, reqs, opts), replay)
             if a.startswith('E:') or a in ('P', 'A'):
                 failed = True
             classes.add(a.split(':')[0] + (':' + a.split(':')[2] if a.startswith('E:') else ''))
@@ -415,7 +528,7 @@ def run_machines(run, impl_exe, model_exe, machines, restore, label):
             run.violation('model-driver', 'model driver failed: %s' % mr[:100], replay, concrete=False)
             continue
         fi, fm = ir.split('\t'), mr.split('\t')
-        if len(fi) != 2:
+        if len(fi) != 3:
             run.violation('session-driver-' + fi[0].lower(), 'session driver answered %s' % ir[:100], replay)
             continue
         ish = [canon_impl(x) for x in fi[0].split(';')]
@@ -424,9 +537,9 @@ def run_machines(run, impl_exe, model_exe, machines, restore, label):
         run.count('machine_' + m.get('shape', '?'))
         failed = False
         for j, q in enumerate(m['reqs']):
-            a, b = fi[0].split(';')[j], fi[1].split(';')[j]
+            a, b, c = fi[0].split(';')[j], fi[1].split(';')[j], fi[2].split(';')[j]
             if a != b:
-                key = classify_diff('E', a, b, failed)
+                key = classify_diff('E', a, b, failed, c)
                 if key is None:
                     run.count('memo_shortens_stack')
                 else:
@@ -494,7 +607,10 @@ def corpus_machines():
 
 def check(run):
     rng = vlib.rng_for(run.seed, ID)
-    run.rule = ('sessions: a library source + client sources importing it + argument sources, 2..8 requests (load / new load / eval / '
+    run.rule = ('object sessions: an inheritance chain of 1..3 layers with assertions in any subset of the layers (constant, on an overridable '
+                'field, on a recursion whose depth is a field), kept alive as a library field / inside another object / in closures, read by '
+                '3..8 eval / manifest / eval_call requests with limits 2..400; a fresh overflow is compared under a large limit. '
+                'sessions: a library source + client sources importing it + argument sources, 2..8 requests (load / new load / eval / '
                 'eval_call / manifest / manifest of a kept value / gc) with per-request stack limits; every request also on a fresh Program. '
                 'machines: random thunk machines (chains, dags, cycles; failing cells; failing object assertions) printed to Jsonnet, 2..8 '
                 'requests with limits around the depths that matter; real Program vs extracted machine. non-trivial = sequence of >=3 requests '
@@ -522,7 +638,7 @@ def check(run):
     run_sessions(run, impl_exe, corpus_sessions(), 'cs')
     run_machines(run, impl_exe, model_exe, corpus_machines(), restore, 'cm')
     # K
-    machines = [gen_machine(rng, rng.choice([3, 5, 8, 12])) for _ in range(6000 if thorough else 500)]
+    machines = [gen_machine(rng, rng.choice([3, 5, 8, 12])) for _ in range(6000 if thorough else 400)]
     run_machines(run, impl_exe, model_exe, machines, restore, 'm')
     ic = interner_cases(rng, 3000 if thorough else 300)
     ires = vlib.run_sharded(model_exe, [vlib.model_line(c) for c in ic], timeout=120)
@@ -533,8 +649,10 @@ def check(run):
             run.violation('interner-model', 'interner model: lookup/after growth/reference disagree: %s on %r' % (r, c[2]), {'kind': 'interner', 'case': c[2]}, concrete=False)
         run.count('interner_' + ('hit' if r and r[0] != '-' else 'miss'))
     # search
-    sessions = [gen_session(rng) for _ in range(8000 if thorough else 700)]
+    sessions = [gen_session(rng) for _ in range(8000 if thorough else 450)]
     run_sessions(run, impl_exe, sessions, 's')
+    osessions = [gen_object_session(rng) for _ in range(8000 if thorough else 550)]
+    run_sessions(run, impl_exe, osessions, 'o')
 
 
 def replay(run, path):
